@@ -201,11 +201,12 @@ def preemptions(trace, upto):
   return sum(1 for (o, c, re_) in trace[:upto] if c != 0 and re_)
 
 
-def explore(make_execution, bound, max_schedules=200000):
+def explore(make_execution, bound, max_schedules=200000, shard=None, start=()):
   """make_execution(choices) -> (Execution after run, observation).  Enumerates every schedule with at most `bound`
   preemptions (DFS over alternatives at every scheduling point).  Returns (list of (choices, observation), truncated)."""
   results = []
-  stack = [[]]
+  start = list(start)
+  stack = [start]
   truncated = False
   while stack:
     prefix = stack.pop()
@@ -218,6 +219,8 @@ def explore(make_execution, bound, max_schedules=200000):
     for i in range(len(prefix), len(ex.trace)):
       order, c, running_enabled = ex.trace[i]
       cost = preemptions(ex.trace, i)
+      if shard is not None and prefix == start and i % shard[1] != shard[0]:
+        continue   # sharding: the subtrees below the first deviation are split between workers by position
       for alt in range(1, len(order)):
         if cost + (1 if running_enabled else 0) > bound:
           continue
